@@ -271,7 +271,10 @@ func specConv(ws [][]finfo) (perWrite [][]specReplyT) {
 					trs[f.h.ID] = &tr{n: int(f.h.Sum), slots: map[int][]byte{}}
 				}
 				t := trs[f.h.ID]
-				if t != nil && f.h.No >= 1 && int(f.h.No) <= t.n {
+				// (a package that announces another total than the transfer under way is not one of its packages: a
+				// transfer is complete when all of ITS packages are there — thorough sweep seed 2 had a conversation in which
+				// package 2/3 of a second upload followed package 1/2 of an abandoned one)
+				if t != nil && f.h.No >= 1 && int(f.h.No) <= t.n && int(f.h.Sum) == t.n {
 					t.slots[int(f.h.No)] = f.body
 					if len(t.slots) == t.n {
 						complete, isLate = true, true
